@@ -26,6 +26,9 @@ fn build(kind: Kind, ver: FormatVersion, rng: &mut Rng, dir: &Path) -> Option<Wo
         ("enc.txt".into(), text(700, 3), 0x02, 1),
         ("encmulti.txt".into(), text(1500, 4), 0x10, 2),
         ("rawmulti.bin".into(), rng.bytes(1300), 0, 0),
+        // degenerate contents: their checksums and digests are those of the empty / one-byte string, not "absent"
+        ("empty.flag".into(), vec![], 0, 0),
+        ("one.bin".into(), vec![7], 0x02, 0),
     ];
     if kind == Kind::Signed { files.truncate(3); }
     let mut b = ArchiveBuilder::new().version(ver).block_size(0)
@@ -109,6 +112,19 @@ pub fn run(ctx: &mut Ctx) {
             Ok(Ok(wrong)) => { ctx.out.oracle(false, "intact-archive-reads-wrong-content", &format!("{}: {:?}", w.desc, wrong)); continue; }
             Ok(Err(e)) => { ctx.out.oracle(false, "intact-archive-fails-verification", &format!("{}: {e}", w.desc)); continue; }
             Err(_) => { ctx.out.oracle(false, "verification-panics", &format!("{} intact", w.desc)); continue; }
+        }
+        // the same intact archive behind a prefix (user data / installer stub: header found at a 512-byte boundary, every
+        // stored position relative to it) still verifies
+        for pre in [512usize, 1536] {
+            let mut pb: Vec<u8> = (0..pre).map(|i| (i * 31 % 251) as u8).collect();
+            pb.extend_from_slice(&w.bytes);
+            std::fs::write(&p, &pb).ok();
+            match std::panic::catch_unwind(|| observe(&w, &p, None)) {
+                Ok(Ok(wrong)) if wrong.is_empty() => { ctx.out.oracle(true, "", ""); ctx.out.stat("c10.intact_verifies.behind_prefix"); }
+                Ok(Ok(wrong)) => ctx.out.oracle(false, "intact-archive-reads-wrong-content", &format!("{} behind a {pre}-byte prefix: {:?}", w.desc, wrong)),
+                Ok(Err(e)) => ctx.out.oracle(false, "intact-archive-fails-verification", &format!("{} behind a {pre}-byte prefix: {e}", w.desc)),
+                Err(_) => ctx.out.oracle(false, "verification-panics", &format!("{} intact behind a {pre}-byte prefix", w.desc)),
+            }
         }
         for (lo, hi, what) in &w.regions {
             let mut off = *lo + (ctx.rng.below(stride as u64) as usize);
